@@ -338,12 +338,34 @@ def P(pool, ref):
     return None if ref is None else pool[ref]
 
 
-def new_estimator(client, pool):
+def new_estimator(client, pool, bare=False):
+    """bare=True: only filters, domain and w (the reference is built by explicit register
+    calls); bare=False: K / baseline / sources / bounds the plan puts in the constructor are
+    passed to the constructor (same registered values by another route)."""
     c = client["ctor"]
     kw = {}
     if c.get("w"):
         kw["w"] = pool[c["w"]]
+    if not bare:
+        for key in ("K", "baseline", "sources", "lb", "ub"):
+            if c.get(key) is not None:
+                kw[key] = pool[c[key]]
     return _dreye.ReceptorEstimator(pool["F"], domain=pool["DOM"], **kw)
+
+
+def ctor_ops(client):
+    """The constructor's registrations written as the equivalent explicit mutators, in the
+    constructor's own order (adaptation, baseline, system)."""
+    c = client["ctor"]
+    ops = []
+    if c.get("K") is not None:
+        ops.append({"m": "register_adaptation", "K": c["K"]})
+    if c.get("baseline") is not None:
+        ops.append({"m": "register_baseline", "baseline": c["baseline"]})
+    if c.get("sources") is not None:
+        ops.append({"m": "register_system", "sources": c["sources"], "domain": None,
+                    "lb": c.get("lb"), "ub": c.get("ub")})
+    return ops
 
 
 def apply_mutator(est, op, pool):
@@ -464,7 +486,7 @@ def pristine_battery(pool, meta, client, nf_ops, queries, n_src):
     called): normal-form replay on a new estimator, then every query on its own copy."""
     import warnings as _w
     _w.filterwarnings("ignore")
-    est = new_estimator(client, pool)
+    est = new_estimator(client, pool, bare=True)
     for op in nf_ops:
         apply_mutator(est, op, pool)
     qpool = dict(pool, **derive_args(copy.deepcopy(est), pool, meta, n_src))
@@ -727,6 +749,20 @@ def generate(rs, mode, tier, index):
     clients = []
     for cid in range(n_clients):
         sym = Sym()
+        ctor = {"w": rng.choice([None, None, "w1"])}
+        if rng.coin(0.3):
+            if rng.coin(0.5):
+                ctor["K"] = rng.choice(["Ks", "Kv0", "Km"])
+            if rng.coin(0.5):
+                ctor["baseline"] = rng.choice(["bs", "bv0"])
+            if rng.coin(0.6):
+                src = rng.choice([n for n in meta["n_src"] if not n.startswith("SF")])
+                kk = meta["n_src"][src]
+                ctor["sources"] = src
+                ctor["lb"] = rng.choice([None, "lbs", f"lb{kk}a"])
+                ctor["ub"] = rng.choice([None, "ubs0", f"ub{kk}a", f"ub{kk}i"])
+        for op0 in ctor_ops({"ctor": ctor}):
+            sym_apply(sym, op0, meta)
         n_mut = rng.integers(3, 14 if n_clients == 1 else 9)
         q_density = rng.choice([0.0, 0.4, 0.9]) if mode == "clean" else rng.choice([0.4, 0.9, 1.5])
         ops = []
@@ -759,7 +795,7 @@ def generate(rs, mode, tier, index):
                 q["fault"] = {"kind": "line_interrupt", "frac": float(sig(rng.random(), 4)),
                               "k": 0, "count": rng.choice([0, 25])}
                 ops.append(q)
-        clients.append({"id": cid, "ctor": {"w": rng.choice([None, None, "w1"])}, "ops": ops})
+        clients.append({"id": cid, "ctor": ctor, "ops": ops})
     sched = []
     for c in clients:
         sched += [c["id"]] * len(c["ops"])
@@ -797,7 +833,7 @@ class ClientState:
     def __init__(self, client, pool):
         self.client = client
         self.est = new_estimator(client, pool)
-        self.muts = []       # mutators applied so far (history without queries)
+        self.muts = list(ctor_ops(client))   # registrations so far (history without queries)
         self.sym = Sym()
         self.pos = 0
         self.nf_master = None
@@ -807,7 +843,7 @@ class ClientState:
 
 def build_nf(cs: ClientState, pool, meta):
     nf, dead, swaps = normal_form(cs.muts)
-    est = new_estimator(cs.client, pool)
+    est = new_estimator(cs.client, pool, bare=True)
     for op in nf:
         apply_mutator(est, op, pool)   # must not raise: the history itself succeeded
     return est, dead, swaps, nf
@@ -827,6 +863,11 @@ def execute(plan):
         counters[k] = counters.get(k, 0) + n
 
     states = {c["id"]: ClientState(c, pool) for c in plan["clients"]}
+    for cs0 in states.values():
+        for op0 in cs0.muts:
+            sym_apply(cs0.sym, op0, meta)
+        if cs0.muts:
+            bump("reach:constructor_registrations", len(cs0.muts))
     pool_fp = {k: fingerprint(v) for k, v in pool.items() if isinstance(v, np.ndarray)}
     violation = None
     steps = 0
@@ -1129,7 +1170,7 @@ def candidates(plan):
                     continue
                 seen.add(key)
                 new_ops = ops[:key[0]] + ops[key[1]:]
-                if not valid_history(new_ops, meta):
+                if not valid_history(ctor_ops(c) + new_ops, meta):
                     continue
                 c2 = dict(c)
                 c2["ops"] = new_ops
@@ -1165,10 +1206,16 @@ def candidates(plan):
             yield p
     # simplify the constructor
     for ci, c in enumerate(clients):
-        if c["ctor"].get("w"):
-            c2 = dict(c)
-            c2["ctor"] = {"w": None}
-            yield _rebuild(plan, clients[:ci] + [c2] + clients[ci + 1:])
+        for key in ("w", "K", "baseline", "sources"):
+            if c["ctor"].get(key):
+                ct = dict(c["ctor"])
+                ct[key] = None
+                if key == "sources":
+                    ct["lb"] = ct["ub"] = None
+                c2 = dict(c)
+                c2["ctor"] = ct
+                if valid_history(ctor_ops(c2) + c2["ops"], meta):
+                    yield _rebuild(plan, clients[:ci] + [c2] + clients[ci + 1:])
 
 
 def signature(plan, vio):
